@@ -5,6 +5,7 @@ pub mod case;
 pub mod checks;
 pub mod containers;
 pub mod crash;
+pub mod decode;
 pub mod engine;
 pub mod fwd;
 pub mod gen;
